@@ -1,33 +1,8 @@
 (* C09: the KLV reader model never reaches a Go panic site and never runs out of fuel. *)
 From Coq Require Import String Ascii List ZArith NArith Bool Lia.
-From TT Require Import Base.Outcome Base.F64 Gpmf.Klv.
+From TT Require Import Base.Outcome Base.F64 Gpmf.Klv Proofs.NoCrash.
 Import ListNotations.
 Local Open Scope Z_scope.
-
-Definition no_crash {A} (x : outcome A) : Prop :=
-  match x with Panic _ | OutOfFuel => False | _ => True end.
-
-Lemma no_crash_returns {A} (x : outcome A) : no_crash x <-> returns x.
-Proof.
-  unfold returns. destruct x; simpl; split; intros H; try tauto;
-    try (left; eexists; reflexivity); try (right; eexists; reflexivity);
-    destruct H as [[? H]|[? H]]; discriminate.
-Qed.
-
-Lemma bind_nc {A B} (x : outcome A) (f : A -> outcome B) :
-  no_crash x -> (forall a, x = Ok a -> no_crash (f a)) -> no_crash (bind x f).
-Proof. destruct x; simpl; intros H1 H2; auto. Qed.
-
-Lemma omap_nc {A B} (g : A -> B) (x : outcome A) : no_crash x -> no_crash (omap g x).
-Proof. destruct x; simpl; auto. Qed.
-
-Lemma mapM_nc {A B} (f : A -> outcome B) (l : list A) :
-  (forall x, In x l -> no_crash (f x)) -> no_crash (mapM f l).
-Proof.
-  induction l as [|a l IH]; simpl; intros H; [exact I|].
-  apply bind_nc; [apply H; left; reflexivity|]. intros b _.
-  apply bind_nc; [apply IH; intros x Hx; apply H; right; exact Hx|]. intros bs _. exact I.
-Qed.
 
 Lemma parse_date_nc b : no_crash (parse_date b).
 Proof.
